@@ -99,6 +99,20 @@ func hasMethod(fr *frame, t types.Type, name string) *ssa.Function {
 	return nil
 }
 
+// methodByName finds an exported method in t's method set (nil if absent).
+func methodByName(fr *frame, t types.Type, name string) *ssa.Function {
+	if t == nil || t == rtypeNamed {
+		return nil
+	}
+	ms := fr.i.prog.MethodSets.MethodSet(t)
+	for i := 0; i < ms.Len(); i++ {
+		if sel := ms.At(i); sel.Obj().Name() == name {
+			return fr.i.prog.MethodValue(sel)
+		}
+	}
+	return nil
+}
+
 func bytesOf(v []value) ([]byte, bool) {
 	b := make([]byte, len(v))
 	for i, e := range v {
@@ -251,7 +265,7 @@ func extAppendf(fr *frame, args []value) value {
 func extFprintf(fr *frame, args []value) value {
 	s, _ := formatMsg(fr, strArg(args[1]), args[2].([]value))
 	w := args[0].(iface)
-	wf := fr.i.prog.LookupMethod(w.t, nil, "Write")
+	wf := methodByName(fr, w.t, "Write")
 	if wf == nil {
 		panic(internalError{"fmt.Fprintf: writer without Write"})
 	}
@@ -332,12 +346,12 @@ func errorsAs(fr *frame, err iface, T types.Type, targetIsIface bool, tp *value,
 			}
 			return true
 		}
-		if f := fr.i.prog.LookupMethod(err.t, nil, "As"); f != nil {
+		if f := methodByName(fr, err.t, "As"); f != nil {
 			if r, ok := call(fr.i, fr, token.NoPos, f, []value{err.v, target}).(bool); ok && r {
 				return true
 			}
 		}
-		f := fr.i.prog.LookupMethod(err.t, nil, "Unwrap")
+		f := methodByName(fr, err.t, "Unwrap")
 		if f == nil {
 			return false
 		}
